@@ -115,13 +115,13 @@ func (s *Server) handleRequest(ctx context.Context, stream network.Stream) (_err
 		)
 	}()
 
-	if resp.PendingInstance > req.FirstInstance {
+	if limit > 0 && resp.PendingInstance > req.FirstInstance {
 		// Only try to return up-to but not including the pending instance we just told the
 		// client about. Otherwise we could return instances _beyond_ that which is
 		// inconsistent and confusing.
-		end := req.FirstInstance + limit
-		if end >= resp.PendingInstance {
-			end = resp.PendingInstance - 1
+		end := resp.PendingInstance - 1
+		if limit-1 < end-req.FirstInstance {
+			end = req.FirstInstance + limit - 1
 		}
 
 		certs, err := s.Store.GetRange(ctx, req.FirstInstance, end)
